@@ -64,13 +64,92 @@ theorem add_guarded_transfer (b : Bal) (src tgt : Addr) (v : Int) :
     · simp [transferBalance, hn]
     · simp [transferBalance, hn, h]
 
-/-- The amount strings of the quantifier: zero, empty, `Inf`, more than 18 decimals, negative, huge. -/
+/-- `add_guarded` for the real parser: whatever string is written as the amount of an asset transfer — `strToBigInt`
+    is `utility.StrToBigInt` with the exact `big.ParseFloat`/`Float.Mul`/`Float.Int` semantics — a parse error or a
+    negative value is rejected before any credit. -/
+theorem add_guarded_transfer_string (b : Bal) (src tgt : Addr) (s : String)
+    (h : strToBigInt s = .err ∨ ∃ v, strToBigInt s = .val v ∧ v < 0) :
+    transferBalance b src tgt (strToBigInt s) = none := by
+  rcases h with h | ⟨v, h, hv⟩
+  · rw [h]; rfl
+  · rw [h]; exact (add_guarded_transfer b src tgt v).1 hv
+
+example : strToBigInt "-0.5" = .val (-500000000000000000) ∧ strToBigInt "1e" = .err := by decide +kernel
+
+/-- `add_guarded` for the real parser, contract side: a contract transaction (create, call or jsonrpc; any program,
+    any gas oracle) whose `transferValue` string parses to a negative number never succeeds. Together with
+    `failed_tx_only_gas` it then moves nothing but fees. -/
+theorem add_guarded_contract_string (fuel : Nat) (w : World) (t : ContractTx) (v : Int)
+    (h : strToBigInt t.value = .val v) (hv : v < 0) :
+    (execTx fuel w (.contract t)).2 ≠ .success := by
+  simp only [execTx]
+  cases hcb : contractBefore w.st.bal t with
+  | inl p =>
+    obtain ⟨status, b⟩ := p
+    simp only
+    intro hs
+    subst hs
+    -- BeforeExecute never answers success by itself
+    unfold contractBefore at hcb
+    split at hcb
+    · cases hcb
+    · cases hf : processFee w.st.bal t.src with
+      | none => rw [hf] at hcb; simp only at hcb; split at hcb <;> cases hcb
+      | some b1 =>
+        rw [hf] at hcb
+        simp only at hcb
+        split at hcb
+        · cases hcb
+        · cases hg : parseGasLimit t.gasLimit with
+          | none => rw [hg] at hcb; cases hcb
+          | some raw =>
+            rw [hg, h] at hcb
+            simp only at hcb
+            split at hcb <;> cases hcb
+  | inr p =>
+    obtain ⟨b1, raw, v'⟩ := p
+    have hv' : v' = v := by
+      unfold contractBefore at hcb
+      split at hcb
+      · cases hcb
+      · cases hf : processFee w.st.bal t.src with
+        | none => rw [hf] at hcb; simp only at hcb; cases hcb
+        | some b1' =>
+          rw [hf] at hcb
+          simp only at hcb
+          split at hcb
+          · cases hcb
+          · cases hg : parseGasLimit t.gasLimit with
+            | none => rw [hg] at hcb; cases hcb
+            | some raw' =>
+              rw [hg, h] at hcb
+              simp only at hcb
+              split at hcb
+              · cases hcb
+              · injection hcb with hcb; injection hcb with _ hcb; injection hcb with _ hcb; exact hcb.symm
+    subst hv'
+    simp only
+    have hfalse : (contractExecute w.code fuel t raw v' { w.st with bal := b1 }).2.1 = false := by
+      unfold contractExecute
+      simp only
+      split
+      · rfl
+      · cases ht : t.target with
+        | none => simp only; rw [(add_guarded_contract w.code fuel t.src 0 v' t.init _ hv).2]
+        | some a => simp only; rw [(add_guarded_contract w.code fuel t.src a v' t.init _ hv).1]
+    rw [hfalse]
+    simp
+
+/-- The amount strings of the quantifier, evaluated by the exact `big.Float` model (C18): zero, empty, `Inf`,
+    more than 18 decimals, negative, huge, exponent forms incl. the binary `p` exponent, 2000-digit exponents. -/
 theorem amount_strings :
+    strToBigInt "1p3" = .val 8000000000000000000 ∧ strToBigInt "1e100" = .val (10 ^ 118) ∧ strToBigInt "1e400" ≠ .val (10 ^ 418) ∧
+    strToBigInt "1e-400" = .val 0 ∧ strToBigInt "1e99999999999" = .err ∧
     strToBigInt "" = .val 0 ∧ strToBigInt "0" = .val 0 ∧ strToBigInt "Inf" = .val 0 ∧ strToBigInt "-inf" = .val 0 ∧
     strToBigInt "0.0000000000000000019" = .val 1 ∧ strToBigInt "-0.0000000000000000001" = .val 0 ∧
     strToBigInt "-5" = .val (-5000000000000000000) ∧ strToBigInt "1e30" = .val (10 ^ 48) ∧
     strToBigInt "abc" = .err ∧ strToBigInt "1e" = .err ∧ strToBigInt "0x10" = .err := by
-  refine ⟨?_, ?_, ?_, ?_, ?_, ?_, ?_, ?_, ?_, ?_, ?_⟩ <;> decide
+  decide +kernel
 
 /-- Every primitive pair (`Sub`;`Add`) guarded by `CanTransfer` is balanced. -/
 theorem transfer_moves_only (b : Bal) (src dst : Addr) (n : Nat) (h : canTransfer b src n = true) :
@@ -192,6 +271,22 @@ theorem tx_conserves_counterexample : ¬ FullStatementTxConserves := by
   revert this
   decide
 
+/-- The oracle inputs of the model — the gas the interpreter reports (`gasUsed`), the outcome of the nonce test
+    (`nonceOk`), whether the JSON decodes (`jsonOk`) — and the gas bound `fuel` are universally quantified in every
+    theorem of this file (they are fields of `t : ContractTx` / an argument). Spelled out: whatever values they take,
+    a contract transaction conserves balances + burned, and never raises the sum. -/
+theorem conserves_for_every_oracle_value (fuel : Nat) (w : World) (t : ContractTx)
+    (gasUsed : Nat) (nonceOk jsonOk : Bool) :
+    let t' := { t with gasUsed := gasUsed, nonceOk := nonceOk, jsonOk := jsonOk }
+    total (execTx fuel w (.contract t')).1.st.bal + (execTx fuel w (.contract t')).1.st.burned
+        = total w.st.bal + w.st.burned ∧
+    total (execTx fuel w (.contract t')).1.st.bal ≤ total w.st.bal := by
+  intro t'
+  have h1 := execTx_mass_contract fuel w t'
+  have h2 := execTx_burned fuel w (.contract t')
+  unfold mass at h1
+  exact ⟨h1, by omega⟩
+
 /-- **The sum of all balances never increases** over any transaction, successful or failed. -/
 theorem tx_never_mints (fuel : Nat) (w : World) (tx : Tx) :
     total (execTx fuel w tx).1.st.bal ≤ total w.st.bal := by
@@ -205,7 +300,7 @@ theorem node_fee_exact (b b' : Bal) (src : Addr) (ok : Bool) (h : nodeTx b src o
     total b' + nodeFee = total b :=
   nodeTx_total b b' src ok h
 
-theorem node_fee_is_ten : strToBigInt "10" = .val nodeFee := by decide
+theorem node_fee_is_ten : strToBigInt "10" = .val nodeFee := by decide +kernel
 
 /-- …and over any block of transactions. -/
 theorem block_never_mints (fuel : Nat) (w : World) (txs : List Tx) :
